@@ -46,7 +46,7 @@ def parsing_paths(prog):
 
 
 def entry_body(ctx, prog, rule):
-    b = prog.body("NetflowParser::parse_bytes")
+    b = role_body(prog, "NetflowParser::parse_bytes")
     ctx.anchor(rule, "NetflowParser::parse_bytes", b)
     return b
 
@@ -111,7 +111,7 @@ def variant_target(t, vi):
 
 def rule_unallowed_arm(ctx, prog, an, rule):
     """parse_bytes' arm for UnallowedVersion adds no element and parses nothing further (R2.3 / R12.3)."""
-    body = prog.body("NetflowParser::parse_bytes")
+    body = role_body(prog, "NetflowParser::parse_bytes")
     if body is None:
         ctx.anchor(rule, "NetflowParser::parse_bytes", None)
         return
@@ -135,6 +135,23 @@ def rule_unallowed_arm(ctx, prog, an, rule):
             continue
         tgt = variant_target(t, v["vi"])
         r = body.reachable_cp(tgt)
+        # `results.extend(opt)` with an Option argument appends only when it is Some: ignore the sites where, on every
+        # path from this arm, the argument is known to be None
+        seen_vals = {}
+
+        def obs(bk, env):
+            if bk in pushes:
+                tt = body.term(bk)
+                if len(tt["args"]) == 2 and tt["args"][1].get("k") in ("copy", "move") and not tt["args"][1]["place"].get("p"):
+                    seen_vals.setdefault(bk, []).append(env.get(tt["args"][1]["place"]["l"]))
+        body.reachable_cp(tgt, observe=obs)
+        none_only = set()
+        for bk, vals in seen_vals.items():
+            tt = body.term(bk)
+            aty = (tt.get("argtys") or ["", ""])[1] if len(tt.get("argtys") or []) > 1 else ""
+            if aty.startswith("std::option::Option<") and vals and all(isinstance(x, tuple) and x[0] == "V" and x[1] == 0 for x in vals):
+                none_only.add(bk)
+        pushes = pushes - none_only
         ctx.ob(rule, body.path, "UnallowedVersion-arm-adds-no-element", not (r & errs) and not (r & pushes),
                "blocks reachable from the UnallowedVersion arm that build an Error or push: %s" % sorted((r & errs) | (r & pushes)),
                site=body.line(tgt))
@@ -164,7 +181,8 @@ def run(ctx, env):
     sl = an.slicer(body)
     # R2.1
     for (b, i, s) in errs:
-        bad = [blk for blk, t, c in pcs if body.reaches(b, blk) or blk == b]
+        after = body.reachable_cp(b)      # path-sensitive: what can still execute once this Error has been built
+        bad = [blk for blk, t, c in pcs if blk == b or (blk in after and body.reaches(b, blk))]
         ctx.ob("R2.1", body.path, "terminal:%s" % error_kind(an, body, s), not bad,
                "parsing call(s) at %s reachable after the Error built at %s" % ([body.line(x) for x in bad], site(s["span"])),
                site=site(s["span"]))
